@@ -127,6 +127,13 @@ type actorState struct {
 	nreq     int
 	parked   *Pending
 	tcount   map[string]int
+	arrived  []arrival // every gated request of the current sync, in order
+	hooked   bool      // the sync/finalize hook has been called in the current sync
+}
+
+type arrival struct {
+	resKey, name, verb string
+	afterHook          bool
 }
 
 // Runner executes scenarios against real controllers.
@@ -321,6 +328,8 @@ func (r *Runner) startSync(as *actorState, key string) error {
 	as.key = key
 	as.nreq = 0
 	as.tcount = map[string]int{}
+	as.arrived = nil
+	as.hooked = false
 	as.fpBase = r.fingerprints(as)
 	parent := Absent()
 	var parentObj Obj
@@ -408,6 +417,7 @@ func (r *Runner) stepOne(as *actorState) (ended bool, err error) {
 	case p := <-as.arrivals:
 		as.nreq++
 		as.tcount[p.ResKey+"|"+p.Name]++
+		as.arrived = append(as.arrived, arrival{p.ResKey, p.Name, p.Verb, as.isHooked()})
 		p.Release()
 		return false, nil
 	case res := <-as.done:
@@ -421,10 +431,25 @@ func (r *Runner) stepOne(as *actorState) (ended bool, err error) {
 // until releases requests of the actor until its nth request (since sync start) on the
 // object arrives, and leaves that one parked.  If the sync ends first, that is drift.
 func (r *Runner) until(as *actorState, resKey, name string, nth int) error {
+	return r.untilM(as, resKey, name, nth, "", false)
+}
+
+func (as *actorState) isHooked() bool {
+	hookedMu.Lock()
+	defer hookedMu.Unlock()
+	return as.hooked
+}
+
+var hookedMu sync.Mutex
+
+// untilM is until with optional verb / after-the-hook matchers.
+func (r *Runner) untilM(as *actorState, resKey, name string, nth int, verb string, afterHook bool) error {
 	if nth <= 0 {
 		nth = 1
 	}
-	tk := resKey + "|" + name
+	match := func(a arrival) bool {
+		return a.resKey == resKey && a.name == name && (verb == "" || a.verb == verb) && (!afterHook || a.afterHook)
+	}
 	for as.running {
 		if as.parked != nil {
 			p := as.parked
@@ -436,7 +461,15 @@ func (r *Runner) until(as *actorState, resKey, name string, nth int) error {
 		case p := <-as.arrivals:
 			as.nreq++
 			as.tcount[p.ResKey+"|"+p.Name]++
-			if p.ResKey == resKey && p.Name == name && as.tcount[tk] >= nth {
+			ar := arrival{p.ResKey, p.Name, p.Verb, as.isHooked()}
+			as.arrived = append(as.arrived, ar)
+			cnt := 0
+			for _, x := range as.arrived {
+				if match(x) {
+					cnt++
+				}
+			}
+			if match(ar) && cnt >= nth {
 				as.parked = p
 				return nil
 			}
@@ -675,6 +708,13 @@ func (r *Runner) hookHandler(c *HookCall) HookReply {
 	}
 	if r.srv.IsDead(actor) {
 		return HookReply{Status: 0}
+	}
+	if hook != "customize" {
+		if as := r.actors[strings.SplitN(actor, ".", 2)[0]]; as != nil {
+			hookedMu.Lock()
+			as.hooked = true
+			hookedMu.Unlock()
+		}
 	}
 	r.hookMu.Lock()
 	fault := -1
